@@ -161,7 +161,7 @@ C15 = Prop(
                "findings U2/U3, and about/group descriptions are never wrapped (U4); with no assumption on the words: every line "
                "on which no never-fitting word was put keeps within the width (width_unless_forced, ghost fpLines tied to the "
                "text by fpLines_lens), and every line's core - its length when the first never-fitting word was put on it - keeps "
-               "within the width (width_up_to_forcing_words,width_option_section,width_option_section_80,width_group: behind such a word only further ones can follow); on the implementation's text a line over 80 must be at most 80 once its trailing "
+               "within the width (width_up_to_forcing_words,width_option_section,width_option_section_80,width_group,width_usage: behind such a word only further ones can follow); on the implementation's text a line over 80 must be at most 80 once its trailing "
                "forcing pieces are taken off; the text does not depend on the target stream nor on "
                "whether the parser object was moved. Tied to the working tree by exact comparison of the text on three "
                "kinds of stream and three moved parsers.",
